@@ -40,7 +40,7 @@ CLAIMS = {
    note="Signer = last URI component (what verifySignatures verifies); empty key sets, URIs ending in an account, float-order dependent rule points and the XuperSign path are excluded."),
  "C12": dict(level="exploration", technique="harness-owned cooperative deterministic scheduler over yield hooks in the real lock protocol (rapid draws the schedule: uniform, PCT-style, coarse); exhaustive schedule enumeration for small boxes; real-goroutine runs under the race detector; serial-order oracle",
    text="Part A: SpinLock alone under generated and (for 2-thread / small boxes) all schedules - never a shared+exclusive or two exclusive holders, all entries released. Part B: 2-4 concurrent DoTx / locking SelectUtxos / PlayAndRepost requests chosen to conflict on a real node, interleaved at the lock protocol's yield points by the scheduler: no panic or deadlock, the admitted set applies in some one-at-a-time order, model comparison of every observable (with a serial-replica fallback), selectors never share an output, leaked locks detected by resubmission, memory = disk after reopen. Part C: the same scenarios with real goroutines under -race.",
-   note="Granularity is the yield points (hooks 77c70ae), below that only the race detector; liveness is 'no generated schedule reaches a state where every thread waits'; play requests only for window 0."),
+   note="Granularity is the yield points (hooks 77c70ae, 47005d3, 3fd21d2: lock protocol steps, two points inside PlayAndRepost, lock probes), below that only the race detector; liveness is 'no generated schedule reaches a state where every thread waits'; play requests only for window 0."),
  "C13": dict(level="exploration", technique=T_MODEL + "; blocks produced by the real Miner.packBlock; graph-path oracle over the pool's dependency graph (all map orders); replica differential",
    text="Pools rich in dependency chains, read-only sharers followed by a writer, fee payers and timer tasks; every block produced by the real packBlock must verify, carry the right award, be executable in exactly its order on the parent state and replay on a replica to the producer's state. For all map-iteration orders the pool's dependency graph must contain a path for every pair the model orders; TopSortDFS is checked on generated graphs.",
    note="As C01; the award of produced blocks is never spent (GenerateAwardTx uses the wall clock); one known finding (timer transaction computed over pending state) excluded by shape."),
@@ -70,7 +70,7 @@ CLAIMS = {
 def main():
     props = [json.loads(l) for l in open('/verif/properties.jsonl')]
     hooks = subprocess.check_output(['git', '-C', '/repo', 'log', '--format=%h %s']).decode().splitlines()
-    hook_commits = [l.split()[0] for l in hooks if l.split(' ', 1)[1].startswith('verif hooks')]
+    hook_commits = [l.split()[0] for l in hooks if l.split(' ', 1)[1].startswith('verif hook')]
     checks = []
     for p in props:
         i = p['id']
